@@ -213,7 +213,7 @@ TEnvRead ==
 
 \* ------------------------------------------------------------------ scripted breaking server (C08 sessions)
 UnsolMsg(k, r) == CASE k = "err_server" -> Msg("err", NoRun, "server")
-                    [] k = "err_none" -> Msg("err", NoRun, "none")
+                    [] k = "err_none" -> Msg("err", r, "none")
                     [] k = "err_step" -> Msg("err", NoRun, "step")
                     [] k = "sig" -> Msg("sig", r, "")
                     [] k = "wd_dup" -> Msg("wd", r, "dup")
